@@ -440,7 +440,7 @@ impl Calendar {
     pub fn week_of_year(&self, iso_date: &IsoDate) -> TemporalResult<Option<u16>> {
         if self.is_iso() {
             let date = iso_date.to_icu4x();
-            let week_calculator = WeekCalculator::default();
+            let week_calculator = iso_week_calculator();
             let week_of = date.week_of_year(&week_calculator);
             return Ok(Some(week_of.week as u16));
         }
@@ -453,7 +453,7 @@ impl Calendar {
         if self.is_iso() {
             let date = iso_date.to_icu4x();
 
-            let week_calculator = WeekCalculator::default();
+            let week_calculator = iso_week_calculator();
 
             let week_of = date.week_of_year(&week_calculator);
 
@@ -639,6 +639,15 @@ impl Calendar {
             _ => None,
         }
     }
+}
+
+/// Returns the ISO 8601 week rules: weeks start on Monday and the first week
+/// of a year is the one containing at least four of its days.
+fn iso_week_calculator() -> WeekCalculator {
+    let mut calculator = WeekCalculator::default();
+    calculator.first_weekday = icu_calendar::types::Weekday::Monday;
+    calculator.min_week_days = 4;
+    calculator
 }
 
 impl From<PlainDate> for Calendar {
